@@ -322,6 +322,14 @@ def run(ctx: Ctx):
                 "thread outlives its connection)", floor=2)
     ctx.include(_c14_run, {"C14-R2", "C14-R3"}, "C19-G4c",
                 "thread slots are returned; workers are started once and stopped by their owner", floor=8)
+    from .common_node import connect_failure_closes, route_lists_not_aliased
+    connect_failure_closes(ctx, "C19-G4e")
+    route_lists_not_aliased(ctx, "C19-G6")
+    ctx.include(_c06_run, {"C06-R3"}, "C19-G4d",
+                "a connection refused by receive_cer is left in a state that the I/O loop or the "
+                "timers tear down (CLOSING, or CONNECTED until the CER time-out): stored in any "
+                "other state it keeps its threads, socket and table entries for ever", floor=8,
+                constructs=lambda c: "state" in c)
     # PeerConnection.close stops both workers
     pc = model.cls("node.peer", "PeerConnection")
     cl = pc.methods.get("close")
@@ -361,6 +369,11 @@ def _c18_run(ctx):
 def _c05_run(ctx):
     from . import c05
     c05.run(ctx)
+
+
+def _c06_run(ctx):
+    from . import c06
+    c06.run(ctx)
 
 
 def _c14_run(ctx):
